@@ -113,3 +113,52 @@ pub fn hexpairs(p: &[(Vec<u8>, Vec<u8>)]) -> Vec<(String, String)> {
         .map(|(k, v)| (String::from_utf8_lossy(k).to_string(), crate::hexser::hex(v)))
         .collect()
 }
+
+/// Decode up to `n` records sequentially from one buffer; stops after the first failure.
+pub fn decode_seq(kt: KeyType, bytes: &[u8], n: usize) -> Vec<LibOut> {
+    with_key_type!(kt, K => {
+        let mut out = Vec::new();
+        let mut b: &[u8] = bytes;
+        for _ in 0..n {
+            let before = b.len();
+            let r = guarded(|| {
+                let r = Enr::<K>::decode(&mut b);
+                r.map(|e| snap(&e))
+            });
+            match r {
+                Ok(Ok(s)) => out.push(LibOut::Ok(s, before - b.len())),
+                Ok(Err(e)) => {
+                    out.push(LibOut::Err(format!("{e:?}")));
+                    break;
+                }
+                Err(p) => {
+                    out.push(LibOut::Panic(p));
+                    break;
+                }
+            }
+        }
+        out
+    })
+}
+
+/// `Vec::<Enr<K>>::decode(&mut buf)`: Ok(records, consumed) / Err / Panic
+pub fn decode_vec(kt: KeyType, bytes: &[u8]) -> Result<Result<(Vec<Snap>, usize), String>, String> {
+    with_key_type!(kt, K => {
+        guarded(|| {
+            let mut b: &[u8] = bytes;
+            let r = Vec::<Enr<K>>::decode(&mut b);
+            match r {
+                Ok(v) => Ok((v.iter().map(snap).collect(), bytes.len() - b.len())),
+                Err(e) => Err(format!("{e:?}")),
+            }
+        })
+    })
+}
+
+/// (to_base64(), Display, JSON text) of the record decoded from `bytes` under `kt`
+pub fn text_forms(kt: KeyType, bytes: &[u8]) -> Option<Result<(String, String, String), String>> {
+    with_key_type!(kt, K => {
+        let e = Enr::<K>::decode(&mut &bytes[..]).ok()?;
+        Some(guarded(|| (e.to_base64(), format!("{e}"), serde_json::to_string(&e).unwrap_or_else(|x| format!("<serialize error {x}>")))))
+    })
+}
